@@ -185,6 +185,11 @@ def Ups.get? : Ups → String → Option Int
 /-- the `time.Unix(sec, nsec)` every configured runner starts with in `NewTimerRegistry` -/
 def upstreamInit : Int := (Facts.upstreamInitSec : Int) * 1000000000 + (Facts.upstreamInitNsec : Int)
 
+/-- the initial value of `TimerRegistry.watermark` in `NewTimerRegistry`: the `time.Unix(sec, nsec)` of the returned literal
+(`Facts.regInit*`), or `time.Time{}` if the field is not set (`Facts.regInitZero = 1`, the code before the D58 repair) -/
+def regInit : Int :=
+  if Facts.regInitZero = 1 then zeroTime else (Facts.regInitSec : Int) * 1000000000 + (Facts.regInitNsec : Int)
+
 /-- `NewTimerRegistry`: `for _, id := range srIDs { upstreams[id] = time.Unix(0, 0) }` -/
 def Ups.init (ids : List String) : Ups := ids.foldl (fun u id => u.set id upstreamInit) []
 
